@@ -364,6 +364,10 @@ def check(ctx, tier):
     obs += [o for o in o_loops if "core.instances" in o.loc.replace("/", ".")]
     o_tab, rows = ctx.attempt(selection_tables, ctx, "D-e", default=([], 0))
     obs += o_tab
+    # the selector / shape-map parsers cut their input with find(): an unchecked -1 selects the wrong variable or node
+    from ..rules import sentinel
+    o_sent, _n_sent = ctx.attempt(sentinel.check, ctx, "D-j", modules=("shexer.io.shape_map",), default=([], 0))
+    obs += o_sent
     obs += ctx.attempt(lambda c, cl: merge.check(c, cl)[0], ctx, "D-f", default=[])
     from .c16 import filter_placement          # (c16 imports this module: late import)
     obs += [o for o in ctx.attempt(filter_placement, ctx, "D-g", default=[]) if o.key.endswith("instance-pass")]
